@@ -75,7 +75,7 @@ func (p *Prog) verifyFunc(fn *ssa.Function, ct *Contract) (res *FuncResult) {
 		}
 	}
 	// requires
-	pre := &SEnv{vc: vc, fr: fr, fn: fn, cur: st, old: st, vars: map[string]Val{}, ct: ct}
+	pre := &SEnv{vc: vc, fr: fr, fn: fn, cur: st, old: st, vars: map[string]Val{}, ct: ct, assumeMode: true}
 	for k, v := range fr.specVars {
 		pre.vars[k] = v
 	}
